@@ -576,9 +576,6 @@ theorem neg_parity (y : F) : y ≠ ((0 : ℤ) : F) → fint (-y) % 2 = 1 - fint 
 
 theorem fneg_sq (y : F) : (-y) * (-y) = y * y := neg_mul_neg y y
 
-/-- the field inverse commutes with negation (`0⁻¹ = 0` included); lets the chord slope be taken from either end -/
-theorem finv_neg (x : F) : (-x)⁻¹ = -x⁻¹ := inv_neg
-
 theorem poly_nonzero (x : F) : secp_poly x ≠ ((0 : ℤ) : F) := by
   rw [Int.cast_zero]
   intro h
